@@ -28,6 +28,12 @@ PIPELINES = {
         "drivers": [{"name": "cases", "cmd": ["crl-cases", "{cases}", "{out}"], "cases": "MC_Crl"}],
         "min_events": 300,
     },
+    "strings": {
+        "variants": ["ring"],
+        "mc": [{"module": "MC_Strings", "workers": 4, "emits": False}],
+        "drivers": [{"name": "all", "cmd": ["strings", "{out}", "{tier}"], "random": True}],
+        "min_events": 500,
+    },
     # distinguished-name container: all edit histories of a fixed length + random long walks
     "dn": {
         "variants": ["ring"],
@@ -66,6 +72,9 @@ PROPS = {
     "C08": _p("model_checking", ["crl"], ["C08."],
               "cases = MC_Crl.Cases: update orderings x issuer key-usage sets x entry shapes; all reason codes x invalidity dates; serial / CRL-number byte-string classes squared; IDP URIs x scopes; 5x5 key-id methods; algorithms; times around the form boundaries in all CRL time fields",
               ops=["Crl"], exhaustive=True),
+    "C13": _p("model_checking", ["strings"], ["C13."],
+              "every Unicode scalar value as a one-character string through every text constructor of the five types (run-length encoded verdicts, judged element by element in TLA+), every 16-bit unit and every 32-bit value < 0x120000 through the byte-level constructors, hand-built and random byte strings (odd lengths, lone/paired surrogates, > U+10FFFF), random multi-character strings with planted outsiders, placement of sampled accepted values in names / alternative names with decoding; distinct by event arguments",
+              ops=["StringRuns", "StringBytes", "StringMulti", "StringPlace"], exhaustive=False),
     "C20": _p("model_checking", ["dn"], ["C20."],
               "cases = every sequence of exactly MaxOps (4 quick / 5 thorough) push/remove operations over 3-4 attribute types x 2 values (MC_Names.Histories), each followed by equality probes against freshly built names (same enumeration, proper prefix, reversed, last value changed) and by issuing a certificate whose subject is decoded; plus random walks of length 200 over 10 types and 6 value kinds; distinct by (operation, arguments) event",
               ops=["DnPush", "DnRemove", "DnEq", "DnEncode"], exhaustive=False),
